@@ -127,16 +127,18 @@ def deliverAll (threads : List Thread) : List (SubId × Cpl) → List Thread
 def newThread (tid : String) (isBg : Option BgKind) (body : Time → Co) : Thread :=
   { tid := tid, isBg := isBg, restart := body, co := .retry, nextSeq := 0, slots := [] }
 
+def bgRunningDone (live : List Thread) (b : BgState) : Bool :=
+  match b.running with
+  | none => true
+  | some tid => !(live.any fun th => th.tid == tid)
+
 /-- background gating: returns the updated registry, the started instances, and the number of
     scheduler in-queue slots used -/
 def startBg (env : Env) (enabled apiDrained : Bool) (live : List Thread) (t : Time) :
     List BgState → Nat → List BgState × List Thread × Nat
   | [], cnt => ([], [], cnt)
   | b :: rest, cnt =>
-    let runningDone := match b.running with
-      | none => true
-      | some tid => !(live.any fun th => th.tid == tid)
-    if enabled && !apiDrained && (t - b.last) ≥ env.cfg.signalTimeout && runningDone then
+    if enabled && !apiDrained && (t - b.last) ≥ env.cfg.signalTimeout && bgRunningDone live b then
       let tid := bgName b.kind ++ ":" ++ toString t
       if cnt < env.cfg.coroutineMaxSize then
         let (bs, ths, c) := startBg env enabled apiDrained live t rest (cnt + 1)
@@ -146,7 +148,7 @@ def startBg (env : Env) (enabled apiDrained : Bool) (live : List Thread) (t : Ti
         ({ b with last := t, running := none } :: bs, ths, c)
     else
       let (bs, ths, c) := startBg env enabled apiDrained live t rest cnt
-      ({ b with running := if runningDone then none else b.running } :: bs, ths, c)
+      ({ b with running := if bgRunningDone live b then none else b.running } :: bs, ths, c)
 
 /-- dequeued API submissions become coroutines while the scheduler in-queue has room -/
 def startReqs (env : Env) (t : Time) : List (String × Req) → Nat → List Thread × List Event
